@@ -1,4 +1,5 @@
 """Helpers shared by the properties that use the association simulator (go/inpkg/zz_verif_sim*_test.go)."""
+import os
 import re
 import vlib
 
@@ -24,3 +25,31 @@ def transfer(ctx, quick=60, thorough=2500, events=250):
 def wire_sack_monitor(ctx):
     """P_C05 on the wire history of simulated runs (SIMFAIL prop=C05 lines of the transfer scenarios)."""
     return transfer(ctx)
+
+
+def hs_step_run(ctx, name, test, env, summary_prefix, timeout=3000):
+    """A handshake-simulator run: step-commuting trace replayed on the extracted handshake model, plus the
+    SIMFAIL lines of ctx.prop as concrete failing inputs (same shape as C04's own runner)."""
+    trace = os.path.join(ctx.tmp, name + ".trace")
+    e = dict(env)
+    e.update(VERIF_OUT=trace, VERIF_SEED=ctx.seed)
+    r = vlib.run_harness(test, e, timeout=timeout)
+    fails = [l for l in r["out"].splitlines() if l.startswith("SIMFAIL prop=%s " % ctx.prop)]
+    summ = [l for l in r["out"].splitlines() if l.startswith(summary_prefix)]
+    cls = classify(ctx.prop)
+    for l in fails:
+        ctx.concrete.append(dict(property=ctx.prop, what=l[:600], key=cls(l), monitor=name, test=test, env=e))
+    ctx.corr.append(dict(name=name + "-monitor", ok=not fails and r["rc"] == 0, records=0, failures=len(fails),
+                         summary=summ[-1][:900] if summ else "", wall_s=round(r["wall"], 2)))
+    if r["rc"] != 0 and not fails:
+        ctx.broken.append(("correspondence", name, "harness run failed (rc=%s): %s" % (r["rc"], r["out"][-1500:])))
+        return
+    if not os.path.exists(trace):
+        ctx.broken.append(("correspondence", name, "no trace written"))
+        return
+    c = vlib.run_cmp("hs", trace, timeout=timeout)
+    ok = c["rc"] == 0 and not c["mismatches"] and c["summary"].get("records", 0) > 0
+    ctx.corr.append(dict(name=name, ok=ok, records=c["summary"].get("records", 0), cases=c["summary"].get("cases", 0),
+                         mismatches=len(c["mismatches"]), wall_s=round(c["wall"], 2), env=e))
+    if not ok:
+        ctx.broken.append(("correspondence", name, "\n".join(c["mismatches"][:5]) or c["raw"][:1500]))
